@@ -18,6 +18,7 @@ struct ItemPolicy {
 };
 
 struct FamTuple {
+  template<class S_> static void cassign(S_& a, const S_& b) { a = b; }
   using A = TrackAlloc<Item>;
   using S = datasketches::update_tuple_sketch<Item, int64_t, ItemPolicy, A>;
   // new tup <id> <lgk> <rf> <p hex f32> <theta0>
